@@ -174,7 +174,8 @@ def oracle(chk, budget=1):
         k = int(g.integers(1, 200))
         a = dict(phi=g.uniform(-math.pi, math.pi, k).tolist(), phi0=g.uniform(-math.pi, math.pi, k).tolist())
         run_oracle(chk, 'align', a, nontrivial=True)
-        r = numpy.sqrt(g.uniform(0, 1, k)) * 0.99
+        # amplitudes over the whole disk, or all of them at the per-cent / per-mille level typical of the detector (in one call)
+        r = numpy.sqrt(g.uniform(0, 1, k)) * 0.99 * float(g.choice([1., 1., 0.045, 0.01, 0.002]))
         t = g.uniform(0, 2 * math.pi, k)
         a = dict(phi=g.uniform(-math.pi, math.pi, k).tolist(), qs=(r * numpy.cos(t)).tolist(), us=(r * numpy.sin(t)).tolist())
         run_oracle(chk, 'spurmrot', a, nontrivial=bool((r > 0).any()))
